@@ -327,7 +327,7 @@ def gen_family(rng, idx):
     twice = rng.chance(1, 3)
     site = rng.below(4)            # 0 plain, 1 inside do-block, 2 inside if-branch, 3 caller declares in a block around
     in_method = rng.chance(1, 3)
-    probe = rng.chance(1, 4)       # read a body-only name after the call: must be rejected unless the caller defines it
+    probe = rng.chance(1, 6)       # read a body-only name after the call: must be rejected unless the caller defines it
     progs = []
     for mask in range(8):
         pre = [POOL[i] for i in range(3) if mask >> i & 1]
@@ -561,7 +561,7 @@ def run(ctx):
     m = vlib.build_model_exact("C31")
     rng = ctx.rng(STREAM)
     corpus = load_corpus(os.path.join(vlib.ROOT, "corpus", "C31.prog.txt"))
-    nfam = ctx.n(12, 400)
+    nfam = ctx.n(10, 400)
     cases = []
     dist = {}
     for i in range(nfam):
